@@ -25,13 +25,21 @@ fn expect_one(what: &str, op: Op, width: u64, port: u16, value: u64) -> CaseResu
 }
 
 macro_rules! rw_case {
-    ($T:ty, $W:expr, $kind:expr, $port:expr, $val:expr, $dev:expr, $use_clone:expr) => {{
+    ($T:ty, $W:expr, $kind:expr, $port:expr, $val:expr, $dev:expr, $use_clone:expr, $other:expr) => {{
         let port: u16 = $port;
         let c = cpu();
         match $kind {
             0 => {
                 let mut p: Port<$T> = Port::new(port);
-                let mut q = p.clone();
+                // the clone is made either by clone() or by clone_from() into an object of another port
+                let mut q = if $other & 1 == 1 {
+                    let mut t: Port<$T> = Port::new($other);
+                    t.clone_from(&p);
+                    t
+                } else {
+                    p.clone()
+                };
+                ensure!(q == p, "a clone (clone / clone_from over port {:#x}) of the object for port {:#x} must compare equal to it", $other, port);
                 let target = if $use_clone { &mut q } else { &mut p };
                 c.clear_log();
                 unsafe { target.write($val as $T) };
@@ -55,7 +63,15 @@ macro_rules! rw_case {
             }
             1 => {
                 let mut p: PortReadOnly<$T> = PortReadOnly::new(port);
-                let mut q = p.clone();
+                // the clone is made either by clone() or by clone_from() into an object of another port
+                let mut q = if $other & 1 == 1 {
+                    let mut t: PortReadOnly<$T> = PortReadOnly::new($other);
+                    t.clone_from(&p);
+                    t
+                } else {
+                    p.clone()
+                };
+                ensure!(q == p, "a clone (clone / clone_from over port {:#x}) of the object for port {:#x} must compare equal to it", $other, port);
                 let target = if $use_clone { &mut q } else { &mut p };
                 c.clear_log();
                 c.push_in($dev);
@@ -72,7 +88,15 @@ macro_rules! rw_case {
             }
             _ => {
                 let mut p: PortWriteOnly<$T> = PortWriteOnly::new(port);
-                let mut q = p.clone();
+                // the clone is made either by clone() or by clone_from() into an object of another port
+                let mut q = if $other & 1 == 1 {
+                    let mut t: PortWriteOnly<$T> = PortWriteOnly::new($other);
+                    t.clone_from(&p);
+                    t
+                } else {
+                    p.clone()
+                };
+                ensure!(q == p, "a clone (clone / clone_from over port {:#x}) of the object for port {:#x} must compare equal to it", $other, port);
                 let target = if $use_clone { &mut q } else { &mut p };
                 c.clear_log();
                 unsafe { target.write($val as $T) };
@@ -90,6 +114,9 @@ macro_rules! eq_case {
     ($T:ty, $a:expr, $b:expr) => {{
         let (a, b): (u16, u16) = ($a, $b);
         ensure_eq!(Port::<$T>::new(a) == Port::<$T>::new(b), a == b, "Port == for ports {:#x} {:#x}", a, b);
+        ensure_eq!(Port::<$T>::new(a) != Port::<$T>::new(b), a != b, "Port != for ports {:#x} {:#x}", a, b);
+        ensure_eq!(PortReadOnly::<$T>::new(a) != PortReadOnly::<$T>::new(b), a != b, "PortReadOnly != for ports {:#x} {:#x}", a, b);
+        ensure_eq!(PortWriteOnly::<$T>::new(a) != PortWriteOnly::<$T>::new(b), a != b, "PortWriteOnly != for ports {:#x} {:#x}", a, b);
         ensure_eq!(PortReadOnly::<$T>::new(a) == PortReadOnly::<$T>::new(b), a == b, "PortReadOnly == for ports {:#x} {:#x}", a, b);
         ensure_eq!(PortWriteOnly::<$T>::new(a) == PortWriteOnly::<$T>::new(b), a == b, "PortWriteOnly == for ports {:#x} {:#x}", a, b);
         ensure!(Port::<$T>::new(a).clone() == Port::<$T>::new(a), "clone compares equal");
@@ -103,15 +130,15 @@ fn one(c: &Case, obs: &mut Obs) -> CaseResult {
     cpu().reset();
     match w % 3 {
         0 => {
-            rw_case!(u8, 8, kind % 3, port, val, dev, use_clone);
+            rw_case!(u8, 8, kind % 3, port, val, dev, use_clone, other);
             eq_case!(u8, port, other);
         }
         1 => {
-            rw_case!(u16, 16, kind % 3, port, val, dev, use_clone);
+            rw_case!(u16, 16, kind % 3, port, val, dev, use_clone, other);
             eq_case!(u16, port, other);
         }
         _ => {
-            rw_case!(u32, 32, kind % 3, port, val, dev, use_clone);
+            rw_case!(u32, 32, kind % 3, port, val, dev, use_clone, other);
             eq_case!(u32, port, other);
         }
     }
@@ -141,7 +168,7 @@ pub fn run(run: &mut Run) {
     if !tier_thorough {
         run.sub(
             "access",
-            "(width 8/16/32, access kind Port/PortReadOnly/PortWriteOnly, port number edge-biased+uniform over all 65536, value, device reply with junk above the width, via-clone flag, second port for ==); the real in/out instruction is executed and trapped; oracle: exactly one trapped instruction, DX form of that width, DX = constructor port, AL/AX/EAX = value, returned value = device value of that width, == iff equal port numbers; non-trivial = port >= 256 (not encodable as immediate) and top bit of the width set in the value or reply; distinct by (width,kind,port,value,reply,clone)",
+            "(width 8/16/32, access kind Port/PortReadOnly/PortWriteOnly, port number edge-biased+uniform over all 65536, value, device reply with junk above the width, via-clone flag - the clone made by clone() or by clone_from() into an object of the second port -, second port for ==); the real in/out instruction is executed and trapped; oracle: exactly one trapped instruction, DX form of that width, DX = constructor port, AL/AX/EAX = value, returned value = device value of that width, == iff equal port numbers; non-trivial = port >= 256 (not encodable as immediate) and top bit of the width set in the value or reply; distinct by (width,kind,port,value,reply,clone)",
             n,
             (0u8..3, 0u8..3, port_gen(), prop_oneof![any::<u32>(), Just(u32::MAX), Just(0x8000_8080u32)], any::<u64>(), any::<bool>(), port_gen()),
             one,
